@@ -226,6 +226,7 @@ def run(ctx):
                    [nums.tok_num(v) for v in x] + ["VIEWS", str(P)] + sum((C20.view_toks(v, n) for v in vs), [])
             rp.append(" ".join(toks))
         run_scenario(ctx, "repart", "drv_repart", rp, P, K)
+        run_scenario(ctx, "repart_late", "drv_repart", rp[:6], P, max(2, K // 2), late_us=20000)      # some row messages sent 20 ms late
     # messages above the eager limit, one-directional chains, back-to-back exchanges on the same package, late receivers:
     # a send buffer reused before its send completed shows up as a mixed vector
     for P in ctx.scale([3], [2, 3, 4, 6]):
@@ -234,7 +235,9 @@ def run(ctx):
             ops = [rng.choice("FT") for _ in range(rng.randint(3, 6))]
             if k == 0: ops = ["T", "T", "T", "F", "F"]
             tap = int(rng.random() < 0.3); ppn = rng.choice([d for d in range(1, P + 1) if P % d == 0]) if tap else 4
-            big.append(" ".join(str(x) for x in ["g%d_%d" % (P, k), "pbig", rng.choice([1500, 2048, 5000]), tap, ppn, len(ops)] + ops))
+            B = rng.choice([1500, 2048, 5000]) * (-1 if k % 2 else 1)      # odd cases: couplings in both directions
+            if k == 1: tap, ppn = 1, P                                      # one node: the on-node package exchanges > 1000 columns both ways
+            big.append(" ".join(str(x) for x in ["g%d_%d" % (P, k), "pbig", B, tap, ppn, len(ops)] + ops))
         run_scenario(ctx, "bigmsg", "drv_parmat", big, P, max(3, K // 2), late_us=30000)
     for P in ctx.scale([3, 4], [2, 3, 4, 5, 6, 8]):
         trace_conformance(ctx, P, rng.choice([2, 3]), [0] + [ctx.seed * 77 + k + 1 for k in range(ctx.scale(2, 10))])
